@@ -29,6 +29,7 @@ type verifRoutingScn struct {
 	Relist   string   `json:"relist"`
 	Chunked  bool     `json:"chunked"`
 	Spelling string   `json:"spelling"`
+	CType    string   `json:"ctype"`
 }
 
 // verifRoutingAsk: the name the request uses for the model the endpoints in L list as `listed`.
@@ -215,7 +216,20 @@ func TestVerif_Routing(t *testing.T) {
 			"H", hObs, "L", sc.L, "unifier", sc.Unifier, "route", sc.Route, "D", sc.D, "chunked", sc.Chunked, "spelling", verifOr(sc.Spelling, "exact"))
 		asked := verifRoutingAsk(stk, sc.Spelling, listed)
 		target, hdrs, body := verifRequestFor(sc.Route, fmt.Sprintf("q%d", sn), asked)
-		emit("ClientSend", "route", sc.Route, "listed", listed, "asked", asked)
+		switch sc.CType {
+		case "form", "none":
+			kept := hdrs[:0:0]
+			for _, h := range hdrs {
+				if !strings.HasPrefix(strings.ToLower(h), "content-type:") {
+					kept = append(kept, h)
+				}
+			}
+			hdrs = kept
+			if sc.CType == "form" {
+				hdrs = append(hdrs, "Content-Type: application/x-www-form-urlencoded")
+			}
+		}
+		emit("ClientSend", "route", sc.Route, "listed", listed, "asked", asked, "ctype", verifOr(sc.CType, "json"))
 		res := zzverif.Do(stk.addr, &zzverif.Req{Method: "POST", Target: target, Headers: hdrs, Body: []byte(body), Chunked: sc.Chunked, ChunkSz: 13, Timeout: 20 * time.Second})
 		stc := res.Status
 		if res.NoResp {
